@@ -272,3 +272,111 @@ fn pf_eof_1() {
 fn pf_eof_6() {
     pf_eof::<6>()
 }
+
+// ------------------------------------------------------------------------------------------------
+// T1(b): the glue in Streaming::poll_next: whatever error comes out of decode_chunk or poll_frame, the stream is
+// terminal afterwards (State::Error(None)), and a terminal stream yields None without touching body or buffer.
+// StreamingInner::poll_frame is replaced by a scripted stub here (its own behaviour is decided by pf_* above);
+// decode_chunk and the decoder call are the real code.
+// ------------------------------------------------------------------------------------------------
+static mut PF_SCRIPT: [u8; 3] = [0; 3];
+static mut PF_POS: usize = 0;
+static mut PF_CALLS: u32 = 0;
+
+fn poll_frame_stub(_this: &mut StreamingInner, _cx: &mut Context<'_>) -> Poll<Result<Option<()>, Status>> {
+    unsafe {
+        PF_CALLS += 1;
+        if PF_POS >= 3 {
+            return Poll::Pending;
+        }
+        let e = PF_SCRIPT[PF_POS];
+        PF_POS += 1;
+        match e % 4 {
+            0 => Poll::Pending,
+            1 => Poll::Ready(Ok(None)),       // body over (or trailers seen)
+            2 => Poll::Ready(Ok(Some(()))),   // "data was appended" (the stub appends nothing: the decoder will ask again)
+            _ => Poll::Ready(Err(Status::new(Code::Unavailable, ""))),
+        }
+    }
+}
+
+struct CountDec;
+impl Decoder for CountDec {
+    type Item = usize;
+    type Error = Status;
+    fn decode(&mut self, src: &mut DecodeBuf<'_>) -> Result<Option<usize>, Status> {
+        let n = src.remaining();
+        src.advance(n);
+        Ok(Some(n))
+    }
+}
+
+fn pn_glue<const N: usize>() {
+    let bytes: [u8; N] = kani::any();
+    let script: [u8; 3] = kani::any();
+    unsafe {
+        PF_SCRIPT = script;
+        PF_POS = 0;
+        PF_CALLS = 0;
+    }
+    let mut s = Streaming::<usize> {
+        decoder: Box::new(CountDec),
+        inner: mk_inner(Body::empty(), Direction::Request, kani::any()),
+    };
+    s.inner.buf.put_slice(&bytes);
+    let start_terminal: bool = kani::any();
+    if start_terminal {
+        s.inner.state = State::Error(None);
+    }
+    let mut cx = noop_cx();
+    let r = Pin::new(&mut s).poll_next(&mut cx);
+    if start_terminal {
+        kani::cover!(true, "terminal stays terminal");
+        assert!(matches!(r, Poll::Ready(None)), "C07: a stream that reported an error yielded something afterwards");
+        assert!(unsafe { PF_CALLS } == 0, "C07: the body was polled again after the stream had failed");
+        assert!(s.inner.buf.len() == N, "C07: the buffer was decoded further after the stream had failed");
+    }
+    match &r {
+        Poll::Ready(Some(Err(_))) => {
+            kani::cover!(true, "error yielded");
+            assert!(is_terminal(&s.inner.state), "C07: the first error is not final (stream not terminal after yielding an error)");
+        }
+        Poll::Ready(Some(Ok(n))) => {
+            kani::cover!(true, "message yielded");
+            // only a complete, legal frame at the front of the buffer can produce a message
+            let (flag, declared) = ref_frame_header(&bytes).unwrap();
+            assert!(flag == 0 && declared + 5 <= N && *n == declared, "C07: yielded message is not a frame of the input");
+        }
+        Poll::Ready(None) => {
+            kani::cover!(!start_terminal, "clean end");
+        }
+        Poll::Pending => {
+            kani::cover!(true, "pending");
+            assert!(!is_terminal(&s.inner.state));
+        }
+    }
+    core::mem::forget(r);
+    core::mem::forget(s);
+}
+
+#[kani::proof]
+#[kani::unwind(6)]
+#[kani::stub(alloc::fmt::format, fmt_stub)]
+#[kani::stub(StreamingInner::poll_frame, poll_frame_stub)]
+fn pn_glue_0() {
+    pn_glue::<0>()
+}
+#[kani::proof]
+#[kani::unwind(6)]
+#[kani::stub(alloc::fmt::format, fmt_stub)]
+#[kani::stub(StreamingInner::poll_frame, poll_frame_stub)]
+fn pn_glue_5() {
+    pn_glue::<5>()
+}
+#[kani::proof]
+#[kani::unwind(6)]
+#[kani::stub(alloc::fmt::format, fmt_stub)]
+#[kani::stub(StreamingInner::poll_frame, poll_frame_stub)]
+fn pn_glue_6() {
+    pn_glue::<6>()
+}
